@@ -119,12 +119,12 @@ m = {
  "version": 1,
  "setup_cmd": "./setup.sh",
  "hooks": {"guard": "verif", "enable": "none needed: static analysis reads the source; no hook commits exist in /repo",
-           "baseline_off_cmd": "cd /repo && GOFLAGS=-mod=mod GOPROXY=off GOSUMDB=off GOTOOLCHAIN=local go test -vet=off -count=1 ./...",
+           "baseline_off_cmd": "cd /repo && GOFLAGS=-mod=mod GOPROXY=off GOSUMDB=off GOTOOLCHAIN=local go test -json -vet=off -count=1 -timeout 25m ./...",
            "source_commits": [], "add_only": True},
  "engines": [{"name": "verifchk", "path": "checker", "serves_properties": sorted(CLAIMS.keys()),
               "kind_free_text": "repository-specific static analyser in Go (go/packages, go/types, go/ssa, go/cfg): E1 reference-clone comparison, E2 CFG path rules, E3 range obligations, E4 effects/ownership, E5 table queries, E6 lints"}],
  "checks": checks,
- "notes": "All checks are static: /repo is loaded and type-checked afresh on every run, nothing in it is executed. Known findings: known_findings.json. Self-test corpus: mutants/ (selftest.sh), seeded changes from independent agents: seeded/.",
+ "notes": "All checks are static: /repo is loaded and type-checked afresh on every run, nothing in it is executed. No hook or instrumentation commit exists in /repo (static analysis needs none); the only commits made there are the unguarded `fix:` commits listed as `fixed:` entries in known_findings.json, with which the pinned suite passes unedited (baseline_check.sh compares with /root/.vp/BASELINE.json). Known findings: known_findings.json. Self-test corpus: mutants/ (selftest.sh; the thorough tier re-runs the relevant seeded breaks, sensitivity.sh).",
  "not_applicable": na,
 }
 json.dump(m, open(os.path.join(HERE, "MANIFEST.json"), "w"), indent=1)
